@@ -101,6 +101,9 @@ func mergeStats(r *report, st genStats) {
 // ---------------------------------------------------------------- C02
 func runC02(args []string) int {
 	o := parseRunOpts("c02", args)
+	if o.replay != "" {
+		return replayStream("C02", o, false, true, false)
+	}
 	r := newReport("C02", o)
 	r.Rule = "well-formed record streams generated from the profile table (all messages, listed/unlisted fields, compatible definition types narrower or equal, arrays, strings, both byte orders, shuffled field orders, unknown/developer content interleaved) x random chunkings; " +
 		"non-trivial = in the domain of the reference semantics with at least one data record of a known message; distinct by stream bytes. histogram cell_* = (kind, array, profile base type, definition base type, elements, byte order) hit counts"
@@ -176,6 +179,7 @@ func genTimeStream(rg *rng, st genStats, withQuirks bool) *stream {
 		record{Kind: "D", Local: 7, Arch: arch, Gmn: uint16(fit.MesgNumEvent), Fields: []fieldDefS{{253, 4, 0x86}, {0, 1, 0}}})
 	ts := uint32(0x30000000 + rg.intn(1<<24))
 	haveRef := false
+	nearWrap := false
 	n := 1 + rg.intn(40)
 	off := rg.intn(32)
 	for i := 0; i < n; i++ {
@@ -193,6 +197,12 @@ func genTimeStream(rg *rng, st genStats, withQuirks bool) *stream {
 				if withQuirks {
 					v = uint32(1 + rg.intn(0x0FFFFFFF)) // seconds since power on
 				}
+			case 3:
+				if withQuirks {
+					// a reference within 64 s of 2^32: the compressed records that follow wrap it, sometimes to exactly 0
+					v = uint32(0xFFFFFFFF - 1 - rg.intn(63))
+					nearWrap = true
+				}
 			}
 			if v != 0xFFFFFFFF {
 				haveRef = true
@@ -204,6 +214,21 @@ func genTimeStream(rg *rng, st genStats, withQuirks bool) *stream {
 			}
 			s.Records = append(s.Records, record{Kind: "M", Local: l, Pay: append(put32(be, v), byte(rg.intn(200)))})
 			st["explicit_timestamps"]++
+			if nearWrap {
+				nearWrap = false
+				st["near_wrap_references"]++
+				// walk the offsets forward so that the reference crosses 2^32; half of the time aim the first step at 0
+				o2 := int(v % 32)
+				if rg.bool() {
+					s.Records = append(s.Records, record{Kind: "Z", Local: 1, Offset: 0, Pay: []byte{byte(rg.intn(200))}})
+					o2 = 0
+				}
+				for k, run := 0, 2+rg.intn(8); k < run; k++ {
+					o2 = (o2 + 1 + rg.intn(20)) % 32
+					s.Records = append(s.Records, record{Kind: "Z", Local: 1, Offset: byte(o2), Pay: []byte{byte(rg.intn(200))}})
+				}
+				off = o2
+			}
 			ts += uint32(rg.intn(40))
 		case c < 8: // run of compressed records
 			if !haveRef && !withQuirks && rg.chance(9, 10) {
@@ -251,6 +276,9 @@ func genTimeStream(rg *rng, st genStats, withQuirks bool) *stream {
 
 func runC12(args []string) int {
 	o := parseRunOpts("c12", args)
+	if o.replay != "" {
+		return replayStream("C12", o, true, true, false)
+	}
 	r := newReport("C12", o)
 	r.Rule = "sequences mixing explicit timestamps, compressed-timestamp records (all 32 offsets, rollovers, runs up to 200) and local timestamps, both byte orders; a main stream inside the theorem's side conditions and a second stream with timestamp 0 / power-on-relative timestamps / local timestamps without reference (known findings); " +
 		"non-trivial = at least one compressed or local timestamp decoded; distinct by stream bytes"
@@ -265,9 +293,11 @@ func runC12(args []string) int {
 	n := sizes(o.tier, o.boost, 3000, 600000)
 	st := genStats{}
 	timeQuirksInScope = true
-	// the recorded witnesses of the two known findings run first
+	// the recorded witnesses of the two known findings run first (corpus/known/C12-*.json)
 	for _, wit := range []string{"D:5:0:0:0.1.0:0:- M:5:04:- D:1:0:20:3.1.2:0:- D:3:0:34:5.4.134:0:- M:3:00000030:- Z:1:5:64:-",
-		"D:5:0:0:0.1.0:0:- M:5:04:- D:0:0:20:253.4.134,3.1.2:0:- D:1:0:20:3.1.2:0:- M:0:0000000064:- Z:1:5:64:-"} {
+		"D:5:0:0:0.1.0:0:- M:5:04:- D:0:0:20:253.4.134,3.1.2:0:- D:1:0:20:3.1.2:0:- M:0:0000000064:- Z:1:5:64:-",
+		// the same defect reached by 32-bit wrap-around: reference 0xFFFFFFFE, compressed offset 0 lands on 0, the next record is unstamped
+		"D:5:0:0:0.1.0:0:- M:5:04:- D:0:0:20:253.4.134,3.1.2:0:- D:1:0:20:3.1.2:0:- M:0:feffffff64:- Z:1:0:64:- Z:1:5:64:-"} {
 		s := parseRecords(wit)
 		decodeAndJudge(r, w, streamCase{s, readerSpec{Data: s.bytes()}}, optSet{}, "", true)
 	}
@@ -303,6 +333,9 @@ func runC12(args []string) int {
 // ---------------------------------------------------------------- C13
 func runC13(args []string) int {
 	o := parseRunOpts("c13", args)
+	if o.replay != "" {
+		return replayStream("C13", o, false, true, false)
+	}
 	r := newReport("C13", o)
 	r.Rule = "interleavings of definition and data records over all 16 local types (0-3 also through compressed headers) with redefinitions switching message, field list, sizes and byte order; data records of undefined local types; " +
 		"plus the metamorphic test: inserting a redefinition of one local type (and dropping its later data records) must not change how records of the other local types decode; non-trivial = at least one redefinition followed by data; distinct by stream bytes"
@@ -447,6 +480,9 @@ func hasAccumulating(s *stream) bool {
 // ---------------------------------------------------------------- C16
 func runC16(args []string) int {
 	o := parseRunOpts("c16", args)
+	if o.replay != "" {
+		return replayStream("C16", o, false, false, true)
+	}
 	r := newReport("C16", o)
 	r.Rule = "streams mixing known and unknown messages and listed and unlisted fields, including streams that fail part-way (truncated, corrupted checksum, ill-formed record), each decoded under all 8 option combinations; " +
 		"non-trivial = at least one unknown message or unlisted field counted; distinct by stream bytes"
